@@ -14,6 +14,7 @@ from collections import Counter
 
 from . import VERIF_DIR
 from .ref import normal
+from .ref.refsem import TooCostly
 
 LEVEL = "exploration"
 MAX_SAMPLES = 12
@@ -28,6 +29,11 @@ class StopWorkload(BaseException):
 
 class CaseTimeout(BaseException):
     """raised by the per-case watchdog (BaseException: not swallowed by `except Exception`)"""
+
+    def __init__(self, in_repo=True, where=""):
+        super().__init__(where)
+        self.in_repo = in_repo
+        self.where = where
 
 
 CHECKS = {}   # "Cxx.name" -> fn(ctx, case)
@@ -177,8 +183,21 @@ class Ctx:
         fn = CHECKS[check_name]
         import signal
 
-        def _alarm(*a):
-            raise CaseTimeout()
+        def _alarm(signum, frame):
+            # attribute the runaway cost: is any frame of the code under test on the stack?
+            from . import REPO
+            root = os.path.realpath(REPO) + os.sep
+            in_repo, where, f = False, "", frame
+            while f is not None:
+                fn_ = os.path.realpath(f.f_code.co_filename)
+                if not where:
+                    where = f"{os.path.basename(fn_)}:{f.f_code.co_name}"
+                if fn_.startswith(root):
+                    in_repo = True
+                    where = f"{fn_[len(root):]}:{f.f_code.co_name}"
+                    break
+                f = f.f_back
+            raise CaseTimeout(in_repo, where)
         try:
             old = signal.signal(signal.SIGALRM, _alarm)
             signal.setitimer(signal.ITIMER_REAL, CASE_TIMEOUT)
@@ -186,10 +205,20 @@ class Ctx:
             old = None
         try:
             fn(self, case)
-        except CaseTimeout:
+        except CaseTimeout as to:
+            if not to.in_repo:
+                # the oracle's own arithmetic (plain Python on numbers) ran away: the input is
+                # too costly to judge, which says nothing about the code under test
+                self.count("skipped_reference_did_not_finish")
+                self.note(f"{check_name}: reference computation exceeded {CASE_TIMEOUT}s in "
+                          f"{to.where}; case skipped")
+                self.counters["case_timeouts_reference"] += 1
+                if self.counters["case_timeouts_reference"] >= 8:
+                    raise StopWorkload() from None
+                return
             self.fail(check_name, case, "did-not-terminate",
                       f"case did not finish within {CASE_TIMEOUT}s (non-termination or runaway "
-                      f"cost in the code under test)")
+                      f"cost in the code under test, innermost frame {to.where})")
             self.counters["case_timeouts"] += 1
             if self.counters["case_timeouts"] >= 3:
                 # every further witness costs a full watchdog interval: the violation is
@@ -197,6 +226,8 @@ class Ctx:
                 raise StopWorkload() from None
         except RecursionError:
             self.count("recursion_skipped")
+        except TooCostly:
+            self.count("skipped_too_costly")
         except Exception as e:
             tb = traceback.format_exc(limit=6)
             where = traceback.extract_tb(e.__traceback__)[-1]
